@@ -563,6 +563,31 @@ func c08Server(s *sim.Sim, p *sim.Params, providers bool) {
 	}
 	var results []c08result
 	var hs []*sim.Handle
+	if providers && s.Choose(sim.SWork, 4) == 0 {
+		// "expiry" runs: both keys hold a value whose time to live runs out before the concurrent
+		// phase starts, so every read in it meets an expired entry while writes are going on
+		s.Probe("expired-values-run")
+		for k := 0; k < 2; k++ {
+			r := simReq{path: fmt.Sprintf("/r/setex/k%d/old%d", k, k), remote: "10.2.0.99:1"}
+			call := s.Stamp()
+			resp := sv.do(r)
+			results = append(results, c08result{99, r, resp, call, s.Stamp()})
+		}
+		s.Sleep(1500 * time.Millisecond)
+		for ti := range plans {
+			for k := range plans[ti] {
+				if s.Choose(sim.SWork, 2) == 0 {
+					key := s.Choose(sim.SWork, 2)
+					if s.Choose(sim.SWork, 2) == 0 {
+						plans[ti][k] = simReq{path: fmt.Sprintf("/r/get/k%d", key), remote: plans[ti][k].remote}
+					} else {
+						nuniq++
+						plans[ti][k] = simReq{path: fmt.Sprintf("/r/set/k%d/v%d", key, nuniq), remote: plans[ti][k].remote}
+					}
+				}
+			}
+		}
+	}
 	for ti := range plans {
 		ti := ti
 		hs = append(hs, s.Spawn(fmt.Sprintf("request#%d", ti), func() {
